@@ -136,3 +136,21 @@ Theorem support_spec : forall c, valid c ->
   forall j, zat c (S j) - zat c j == delta c.
 Proof. exact support_spec_lemma. Qed.
 Print Assumptions support_spec.
+
+(* non-vacuity of priority_is_ce / greedy_is_argmax: concrete samples (3 atoms on [0,2], 2 actions, gamma = 1/2, n = 2,
+   prior_eps = 1/100); greedy picks action 1 for the 1-step row and the first of two tied actions for the n-step row *)
+Example c18_priority_nonvacuous :
+  let c := {| natoms := 3; vmin := 0; vmax := 2 |} in
+  let s1 := {| s_rew := 1#2; s_done := 0; s_online := [[1#2;1#4;1#4];[1#4;1#4;1#2]]; s_target := [[1#3;1#3;1#3];[1#5;3#5;1#5]];
+               s_logp := [[-(1);-(2);-(3)];[-(2);-(1);-(1)]]; s_act := 1%nat |} in
+  let sn := {| s_rew := 3; s_done := 1; s_online := [[1#2;1#4;1#4];[1#2;1#4;1#4]]; s_target := [[1#2;1#4;1#4];[1#5;3#5;1#5]];
+               s_logp := [[-(1);-(2);-(3)];[-(2);-(1);-(1)]]; s_act := 0%nat |} in
+  valid c /\ s_online s1 <> [] /\ greedy c s1 = 1%nat /\ greedy c sn = 0%nat /\
+  option_map (map Qred) (project_flat c (1#2) [to_trans c s1]) = Some [1#10; 4#5; 1#10] /\
+  option_map (map Qred) (learn_priorities c (1#2) 2 (1#100) OneStep [s1] [sn]) = Some [111#100] /\
+  option_map (map Qred) (learn_priorities c (1#2) 2 (1#100) NStep [s1] [sn]) = Some [301#100] /\
+  option_map (map Qred) (learn_priorities c (1#2) 2 (1#100) Combined [s1] [sn]) = Some [411#100].
+Proof.
+  cbv zeta. split; [split; [cbn; auto | reflexivity]|]. split; [discriminate|].
+  repeat split; vm_compute; reflexivity.
+Qed.
